@@ -234,6 +234,7 @@ class DoublyLinkedList(Iterable[_T]):
         node.next_node = self.head
 
         self.head = node
+        self.size += 1  # remove decreased the size, but the node is still in the list
 
     def move_to_back(self, node: DoublyLinkedListNode[_T]):
         """
@@ -261,6 +262,7 @@ class DoublyLinkedList(Iterable[_T]):
         node.prev_node = self.tail
 
         self.tail = node
+        self.size += 1  # remove decreased the size, but the node is still in the list
 
     def rotate(self, front_to_back: bool = True):
         """
@@ -320,3 +322,4 @@ class DoublyLinkedList(Iterable[_T]):
         node.next_node = after.next_node
         node.prev_node = after
         after.next_node = node
+        self.size += 1  # remove decreased the size, but the node is still in the list
